@@ -6,7 +6,10 @@ require github.com/nyaruka/goflow v0.0.0
 
 replace github.com/nyaruka/goflow => /repo
 
-require golang.org/x/tools v0.29.0
+require (
+	github.com/shopspring/decimal v1.4.0
+	golang.org/x/tools v0.29.0
+)
 
 require (
 	golang.org/x/mod v0.22.0 // indirect
